@@ -41,6 +41,7 @@ type profile struct {
 	pCRD       float64
 	pAlias     float64 // two live objects share a uid
 	pKeep      float64 // live objects with a deletion-prevention annotation (default 0.15)
+	pStall     float64 // a wait that is followed by another layer loses the deliveries of one object and times out
 }
 
 var profiles = map[string]profile{
@@ -51,9 +52,9 @@ var profiles = map[string]profile{
 	"C03": {name: "C03", runsMin: 2, runsMax: 4, pDestroy: 0.25, pNoPrune: 0.15, dry: []Dry{DNone},
 		pSSA: 0.2, pInvalid: 0.05, pBadGraph: 0.03, pLiveBad: 0.03, pDeps: 0.15, varied: false, pTimeouts: 0.1, faults: "none", pIdentical: 0.35, pCRD: 0.1, pAlias: 0.03},
 	"C04": {name: "C04", runsMin: 1, runsMax: 2, pDestroy: 0.0, pNoPrune: 0.2, dry: []Dry{DNone, DNone, DNone, DNone, DClient},
-		pSSA: 0.15, pInvalid: 0.15, pBadGraph: 0.12, pLiveBad: 0.05, pDeps: 0.5, varied: true, pTimeouts: 0.5, faults: "one", pCRD: 0.25},
+		pSSA: 0.15, pInvalid: 0.15, pBadGraph: 0.12, pLiveBad: 0.05, pDeps: 0.5, varied: true, pTimeouts: 0.5, faults: "one", pCRD: 0.25, pStall: 0.3},
 	"C05": {name: "C05", runsMin: 1, runsMax: 2, pDestroy: 0.5, pNoPrune: 0.0, dry: []Dry{DNone, DNone, DNone, DNone, DClient},
-		pSSA: 0.1, pInvalid: 0.05, pBadGraph: 0.05, pLiveBad: 0.12, pDeps: 0.5, varied: true, pTimeouts: 0.5, faults: "one", pCRD: 0.25, pKeep: 0.25},
+		pSSA: 0.1, pInvalid: 0.05, pBadGraph: 0.05, pLiveBad: 0.12, pDeps: 0.5, varied: true, pTimeouts: 0.5, faults: "one", pCRD: 0.25, pKeep: 0.25, pStall: 0.4},
 	"C10": {name: "C10", runsMin: 1, runsMax: 3, pDestroy: 0.3, pNoPrune: 0.15, dry: []Dry{DNone, DClient, DClient, DServer, DServer},
 		pSSA: 0.5, pInvalid: 0.1, pBadGraph: 0.05, pLiveBad: 0.05, pDeps: 0.2, varied: false, pTimeouts: 0.1, faults: "none"},
 	"C11": {name: "C11", runsMin: 1, runsMax: 2, pDestroy: 0.35, pNoPrune: 0.15, dry: []Dry{DNone, DNone, DNone, DClient},
@@ -323,6 +324,9 @@ func genOpts(r *rand.Rand, p profile, k int, histSSA bool) Opts {
 		Prop: Prop(r.Intn(3)), StatusPolicyAll: chance(r, 0.3)}
 	if chance(r, p.pTimeouts) {
 		o.RecTimeout, o.PruneTimeout = chance(r, 0.7), chance(r, 0.7)
+		if p.pStall > 0 {
+			o.RecTimeout, o.PruneTimeout = true, true
+		}
 	}
 	pd := p.pDestroy
 	if k == 0 && p.runsMax > 2 {
@@ -460,6 +464,25 @@ func genEnv(r *rand.Rand, p profile, o Opts, cur Cluster, probe RunResult) Env {
 		}
 		timeoutOn := (prune && o.PruneTimeout) || (!prune && o.RecTimeout)
 		env.Waits = append(env.Waits, genWait(r, base, prune, timeoutOn, p.varied))
+	}
+	// a stalled layer: one object of a wait that has a successor layer never
+	// reconciles and the wait times out, so the next layer meets a dependency
+	// (apply) or dependent (prune) whose reconcile timed out
+	for k := range env.Waits {
+		prune := kinds[k]
+		timeoutOn := (prune && o.PruneTimeout) || (!prune && o.RecTimeout)
+		if !timeoutOn || k+1 >= len(env.Waits) || kinds[k+1] != prune || len(env.Waits[k].Deliv) == 0 || !chance(r, p.pStall) {
+			continue
+		}
+		w := &env.Waits[k]
+		victim := w.Deliv[r.Intn(len(w.Deliv))].ID
+		var keep []SObs
+		for _, d := range w.Deliv {
+			if d.ID != victim {
+				keep = append(keep, d)
+			}
+		}
+		w.Deliv, w.End = keep, WTimeout
 	}
 	if chance(r, p.pCancel) {
 		var targets, dels []int
